@@ -455,7 +455,10 @@ def act_command_case(draw):
         'files': files,
         'pgms': ch['defs'],
         'act': {'k': 'program', 'p': ch['use'], 'explicit_actor': draw(st.booleans()),
-                'comments_before': draw(comment_lines)},
+                'comments_before': draw(comment_lines),
+                # the act phase written as two [act] blocks (the second one begins with the -stdin / -transformed-by
+                # line of the program): "repeated declarations of a phase [are] merged in file order"
+                'split': draw(st.sampled_from([0, 0, 1, 2]))},
         'setup_stdin': draw(st.one_of(st.none(), _with_tsym(text_source(0)))),
         'phases': phases,
         'claims': draw(claims),
